@@ -321,7 +321,13 @@ bool Exec<Cfg>::run_real(Op const& op) {
 					case 2: dv = sv.element_moved(); break;
 					case 3: std::move(dv) = csv; break;
 					case 4: std::move(dv) = sv.element_moved(); break;
-					default: std::move(dv) = std::move(sv); break;
+					case 5: std::move(dv) = std::move(sv); break;
+					default:
+						if constexpr(!Cfg::static_arrays && D >= DMIN && D <= DMAX) {
+							Arr<D>& b = pool<D>().at(op.b);
+							dv = std::move(b)();  // a whole moved array as source: its elements are moved from
+						}
+						break;
 					}
 				}
 			} break;
@@ -349,7 +355,8 @@ bool Exec<Cfg>::run_real(Op const& op) {
 					std::vector<E, hallocator<E>> r;
 					fill_values(r, static_cast<std::size_t>(n[0]), op.v);
 					OpScope s;
-					dv = r;
+					if(op.var == 0) dv = r;
+					else dv.assign(r.begin());
 				} else if constexpr(D <= 3) {
 					std::vector<HArr<D - 1>, hallocator<HArr<D - 1>>> rows;
 					long const sub = prod(n + 1, D - 1);
@@ -359,7 +366,8 @@ bool Exec<Cfg>::run_real(Op const& op) {
 						for(long k = 0; k < sub; ++k) ET::write(rows.back().data_elements()[k], op.v + i * sub + k);
 					}
 					OpScope s;
-					dv = rows;
+					if(op.var == 0) dv = rows;
+					else dv.assign(rows.begin());
 				} else handled = false;
 			} break;
 			case O_VASSIGN_IL: {
